@@ -137,6 +137,13 @@ def check(ast):
         if t1 != t2:
             diff = [m for m in t1 if t1.get(m) != t2.get(m)]
             fails.append(("metamorphic-expansion", f"tables differ for {diff} between the text and its expansion:\n{text}\n--- expanded ---\n{text2}"))
+        else:
+            # both texts are read by the same implementation: also the representation (e.g. of an absent parameter
+            # list) must be the same, whatever it is
+            r1, r2 = typed(decobs.raw_tables(p)), typed(decobs.raw_tables(p2))
+            if r1 != r2:
+                diff = [(m, a, b) for m in r1 for a, b in zip(r1[m], r2.get(m, [])) if a != b][:2]
+                fails.append(("metamorphic-expansion:representation", f"a line is reported differently in the text and in its expansion: {diff}\n{text}\n--- expanded ---\n{text2}"))
     except Exception as e:  # noqa: BLE001
         fails.append((f"expanded-parse-exception:{type(e).__name__}", f"{e!s:.300}\n{text2}"))
     return fails
